@@ -258,8 +258,11 @@ def all_cases(tier):
 
 
 def run_shard(tier, k, n, acc):
-    for c in shard_iter(all_cases(tier), k, n, acc):
-        if c.get("special") == "runtime_nested":
+    from . import c17
+    for c in shard_iter(itertools.chain(all_cases(tier), c17.overlap_subset(2), c17.overlap_subset(3)), k, n, acc):
+        if c.get("kind") == "gather":
+            c17.run_gather(acc, c)  # overlapping awaits of one AsyncDAG object: every one of them terminates (a spin / hang is reported)
+        elif c.get("special") == "runtime_nested":
             runtime_nested_case(acc, c)
         elif c.get("special"):
             cycles_case(acc, c)
@@ -268,6 +271,12 @@ def run_shard(tier, k, n, acc):
 
 
 def replay(v):
+    if v["case"].get("kind") == "gather":
+        from ..acc import Acc
+        from . import c17
+        a = Acc(ID, 0, 1, 600)
+        c17.run_gather(a, v["case"], only_prefix=v["prefix"])
+        return a.violations, None
     if v["case"].get("special"):
         from ..acc import Acc
         a = Acc(ID, 0, 1, 600)
